@@ -17,6 +17,16 @@ EMPHASIS = {
           "is modified, two objects created by one call that share a reference, an attribute of the INPUT that changes; "
           "(v) values exactly on a documented limit, signed zeros, the largest value a field can hold, names containing blanks "
           "in unusual positions. "),
+    '5': ("PREFER mechanisms of these kinds, which are the hardest to notice: (i) a slip in a small HELPER the property's code "
+          "path relies on (a geometry primitive, a name/number conversion helper, a format-specification table entry, a "
+          "reader/skip routine, a sort key) rather than in the headline method; (ii) the first or the last element of a loop "
+          "treated differently (off-by-one at an end, `range` bound, `<` vs `<=`, a slice that drops or repeats an element); "
+          "(iii) a shallow copy where a deep one is needed (or the reverse: identity lost where it matters), a default value "
+          "changed for one variant only; (iv) type coercion: int vs float, numpy scalar vs Python number, str vs padded str, "
+          "list vs tuple vs numpy array as input or output; (v) behaviour specific to ONE variant that the property "
+          "quantifies over and that ordinary use rarely picks (one naming convention, one atmosphere type, one simulator "
+          "flavour, one block ordering, left-justified names, upper-case letters, a unit system); (vi) a tolerance, threshold "
+          "or rounding changed so that only values near it are affected. "),
 }[rnd]
 props = [json.loads(l) for l in open('/verif/properties.jsonl')]
 for p in props:
